@@ -23,10 +23,11 @@ import (
 
 // To translates a golang Time object to a protobuf Timestamp message.
 func To(t time.Time) *tspb.Timestamp {
-	const NanosPerSecond = 1000000000
+	// Seconds and nanoseconds are read separately: UnixNano is undefined outside the years 1678-2262
+	// and its remainder is negative for fractional seconds before 1970.
 	return &tspb.Timestamp{
 		Seconds: t.Unix(),
-		Nanos:   int32(t.UnixNano() % NanosPerSecond),
+		Nanos:   int32(t.Nanosecond()),
 	}
 }
 
